@@ -547,6 +547,10 @@ class C27(core.Check):
                 run.run()
             except Violation as v:
                 out.violate(v.clause, v.detail, run.opi)
+            except (HarnessError, MemoryError):
+                raise
+            except Exception as e:
+                out.violate('C27.1', hist.unexpected(e, (case['ops'][run.opi:run.opi + 1] or [None])[0]), run.opi)
             finally:
                 del run.slots[:]
                 del run.ffis[:]
